@@ -63,7 +63,7 @@ def _case(draw: Any, max_cap: int, max_ops: int) -> dict[str, Any]:
     ops: list[list[Any]] = []
     idx = st.one_of(st.none(), st.integers(-cap - 2, cap + 2))
     for _ in range(draw(st.integers(1, max_ops))):
-        kind = draw(st.sampled_from(["u", "u", "u", "u", "u", "u", "qi", "qi", "qd", "qd", "qd", "qd", "at", "at", "rt"]))
+        kind = draw(st.sampled_from(["u", "u", "u", "u", "u", "u", "qi", "qi", "qd", "qd", "qd", "qd", "at", "at", "rt", "pfe"]))
         if kind == "u":
             ops.append(["upd", draw(st.integers(-cap - 2, 2 * cap + 2)), draw(st.sampled_from(FRACS)),
                         draw(st.sampled_from(["v", "v", "v", "none", "nan"]))])
@@ -75,6 +75,10 @@ def _case(draw: Any, max_cap: int, max_ops: int) -> dict[str, Any]:
                         draw(st.sampled_from(["nan", "sentinel", "none"]))])
         elif kind == "rt":
             ops.append(["rt"])
+        elif kind == "pfe":
+            # a reader of the MovingWindow: periodic features over it (period, start, length in slots; weights or None)
+            ops.append(["pfe", draw(st.integers(1, max(1, cap))), draw(st.integers(-1, cap)), draw(st.integers(1, max(1, cap))),
+                        draw(st.sampled_from([None, [1.0, 3.0, 2.0, 5.0, 1.0, 4.0, 2.0, 3.0], [2.0, 1.0, 1.0, 3.0, 1.0, 2.0, 1.0, 1.0]]))])
         else:
             ops.append(["at", draw(st.integers(-2, cap + 2))])
     return {
@@ -298,6 +302,33 @@ def run_case(case: Any, pid: str) -> Verdict:
                             return
                     continue
 
+                if op[0] == "pfe":
+                    if drv.mw is None or newest is None:
+                        continue
+                    from frequenz.sdk.timeseries._periodic_feature_extractor import (  # pylint: disable=import-outside-toplevel
+                        PeriodicFeatureExtractor,
+                    )
+
+                    raw_before = [float(x) for x in drv.buf._buffer]  # pylint: disable=protected-access
+                    lo_slot = newest - cap + 1
+                    # the number of weights has to equal the number of periods inside the window: try the prefixes
+                    for nweights in ([None] if op[4] is None else range(1, len(op[4]) + 1)):
+                        try:
+                            pfe = PeriodicFeatureExtractor(drv.mw, drv.period * op[1])
+                            pfe.avg(ts_of(lo_slot + op[2]), ts_of(lo_slot + op[2] + op[3]),
+                                    weights=None if nweights is None else op[4][:nweights])
+                            v.labels.add("periodic_features_read_from_the_window")
+                            if nweights is not None and nweights >= 2:
+                                v.labels.add("periodic_features_with_non_uniform_weights")
+                            break
+                        except Exception:  # pylint: disable=broad-except
+                            v.labels.add("periodic_features_rejected_the_request")
+                    raw_after = [float(x) for x in drv.buf._buffer]  # pylint: disable=protected-access
+                    if any(a != b and not (math.isnan(a) and math.isnan(b)) for a, b in zip(raw_before, raw_after)):
+                        v.fail(f"{where}: reading periodic features changed the values stored in the window: "
+                               f"{raw_before} -> {raw_after}")
+                        return
+                    continue
                 if op[0] == "rt":
                     if drv.roundtrip():
                         v.labels.add("dump_load_roundtrip")
